@@ -261,6 +261,11 @@ fn struct_init_block<'a>(input: &'a Struct, ctx: &ImplContext) -> TokenStream {
         return TokenStream::new();
     }
 
+    // A unit struct is mapped to a unit struct by default ('same kind of type'), unless #[ghosts(...)] provide fields.
+    if !ctx.kind.is_from() && input.unit && ctx.struct_attr.type_hint == TypeHint::Unspecified && input.attrs.ghosts_attr(&ctx.struct_attr.ty, &ctx.kind).is_none() {
+        return TokenStream::new();
+    }
+
     let mut group_paths = HashMap::<String, usize>::new();
     group_paths.insert("".into(), 0);
 
